@@ -931,6 +931,15 @@ class RecordLayer(object):
                         self._readState.encContext and \
                         self._readState.seqnum == 0:
                     pass
+                elif not self._is_tls13_plus() and self._readState and \
+                        (self._readState.encContext or
+                         self._readState.macContext) and \
+                        header.version != self.version:
+                    # the MAC/AAD is computed over the negotiated version,
+                    # so the version in the header needs to match it
+                    raise TLSIllegalParameterException(
+                        "Unexpected version in protected record: {0}"
+                        .format(header.version))
                 elif self._readState and \
                     self._readState.encContext and \
                     self._readState.encContext.isAEAD:
